@@ -12,6 +12,7 @@ RULE = ("unit generators gen_C20 (counters preset next to 2^32-1 and 2^64-1 thro
         "through debug / release+checks / plain release builds; non-trivial = any; distinct = distinct case lines")
 TRUSTED = ["hand-written Lean models tied to the code by the correspondence run",
            "memory safety of unsafe pointer code and the profile switch itself are observed on the real binaries, not proved"]
+PROOF_SCOPE = 'partial by nature: overflow-freedom, counter and refusal theorems are about the models; identical behaviour across debug / release+checks / release binaries, and memory safety of unsafe code (thorough: Miri), are observed'
 ASSUMPTIONS = ["Argon2 parameter ranges the crate documents as unchecked are outside the claim"]
 nontrivial = _auto.default_nontrivial
 REUSE = {"C01": 8, "C02": 60, "C03": 4, "C04": 4, "C05": 10, "C06": 10, "C07": 10, "C08": 8, "C09": 20, "C10": 8, "C11": 4,
